@@ -1895,7 +1895,7 @@ void eval_instruction (const char *p) {
                 {
                   if (!(sp--)->u.number)
                     error ("*Division by zero.");
-                  sp->u.number /= (sp + 1)->u.number;
+                  sp->u.number = LPC_INT_DIV (sp->u.number, (sp + 1)->u.number);
                   break;
                 }
 
@@ -2216,7 +2216,7 @@ void eval_instruction (const char *p) {
             CHECK_TYPES (sp, T_NUMBER, 2, instruction);
             if ((sp--)->u.number == 0)
               error ("*Modulus by zero.");
-            sp->u.number %= (sp + 1)->u.number;
+            sp->u.number = LPC_INT_MOD (sp->u.number, (sp + 1)->u.number);
           }
           break;
         case F_MOD_EQ:
